@@ -396,11 +396,14 @@ def build_native(profile='dev', quiet=True):
         env['RUSTFLAGS'] = '--cfg manuel_woelker_rust_vfs_verif'
         tdir = tdir + '-hooks'
         env['CARGO_TARGET_DIR'] = tdir
+    if profile == 'async':
+        tdir = tdir + '-async'
+        env['CARGO_TARGET_DIR'] = tdir
     if profile == 'embed':
         tdir = tdir + '-embed'
         env['CARGO_TARGET_DIR'] = tdir
         os.makedirs('/var/tmp/verif-embed', exist_ok=True)
-    cmd = ['cargo', 'build', '--offline'] + (['--release'] if profile == 'release' else []) + (['--features', 'embed'] if profile == 'embed' else [])
+    cmd = ['cargo', 'build', '--offline'] + (['--release'] if profile == 'release' else []) + (['--features', 'embed'] if profile == 'embed' else []) + (['--features', 'asyncvfs'] if profile == 'async' else [])
     r = subprocess.run(cmd, cwd=NATIVE_DIR, env=env, capture_output=True, text=True)
     if r.returncode != 0:
         raise RuntimeError('native driver build failed:\n' + r.stderr[-3000:])
